@@ -15,7 +15,7 @@ RULE = ('every grammar sentence (clause or directive) with <= N tokens over one 
         'completely: numeral spellings (0 00 01 007 10 123 20 digits) x 5 term positions; 16 variable names that are '
         'Python constants / engine names / loop-variable look-alikes x 4 clause shapes; 24 predicate names (Python '
         'keywords, suffix look-alikes, quoted names with spaces, operators, digits, non-ASCII, empty) as clause head; '
-        'bodies that cannot succeed; conjunction length 1..30, head arity 0..40, term nesting 1..120, list length '
+        'bodies that cannot succeed; 26 words of the target language (yield, return, pass, doBreak, ...) as atoms, functor names and goal names in succeeding and never-succeeding clauses; conjunction length 1..30, head arity 0..40, term nesting 1..120, list length '
         '0..300, disjunction / if-then-else / negation nesting 1..12. If the compiler returns text: it must compile as '
         'Python, its module body must be function definitions only, loading it must add exactly the keys name_arity '
         'of the clause heads (RefGrammar), each a generator function, each callable through query without a '
@@ -52,6 +52,17 @@ def families():
     for b in ['fail', 'g, fail', '(a ; b), fail', '\\+ true', 'fail ; fail', '(fail -> a ; fail)', '!, fail', 'fail, g',
               '(a -> fail)', '\\+ \\+ fail', '(fail ; fail), (a ; b)', 'true', '!', '(! ; fail)']:
         out += [('never-succeeds', 'p :- %s.' % b), ('never-succeeds', 'p(X) :- %s.' % b), ('never-succeeds', 'p(f(X)) :- %s.\np(a).' % b)]
+    # words of the target language as DATA (atoms, functor names, goal names): whatever the
+    # compiler decides must not depend on the text of atoms
+    words = ['yield', 'return', 'pass', 'break', 'def', 'for', 'if', 'else', 'doBreak', 'False', 'True', 'None', 'cutIf1',
+             'yield False', 'import', 'l1', 'arg1', 'variable', 'query', 'lambda', 'raise', 'x1', 'continue', 'while', 'in', 'not']
+    for w in words:
+        q = w if (w.isidentifier() and w[0].islower() and w not in ('true', 'fail')) else "'%s'" % w
+        for body in ['q(%s), fail' % q, '%s(a), fail' % q, 'r(%s(b)), fail' % q, '(q(%s) -> fail ; fail)' % q, 'X = %s, fail' % q,
+                     '\\+ true, %s' % q, 'q(%s)' % q, '%s' % q, '!, %s(X), fail' % q, 'fail, %s' % q]:
+            out.append(('python-words', 'p(X) :- %s.' % body))
+        out.append(('python-words', 'p(%s) :- fail.' % q))
+        out.append(('python-words', 'p(%s).\np(X) :- %s(X), fail.' % (q, q)))
     for n in range(1, 31):
         out.append(('conjunction-length', 'p(X) :- %s.' % ', '.join('g%d(X)' % i for i in range(n))))
         out.append(('conjunction-length', 'p(X) :- %s.' % ', '.join('X = %d' % i for i in range(n))))
@@ -83,7 +94,7 @@ def families():
     return out
 
 
-MUST_ACCEPT = ('numeral', 'variable', 'never-succeeds')
+MUST_ACCEPT = ('numeral', 'variable', 'never-succeeds', 'python-words')
 
 
 def check_text(text, tag=None):
